@@ -313,7 +313,7 @@ func (x *Exec) frameCheck(final *State, ce *CEnv, c *Contract) {
 		}
 		whole := false
 		for _, l := range byFam[name] {
-			if l.idx == nil {
+			if l.idx == nil && l.appendFrom == nil {
 				whole = true
 			}
 		}
@@ -329,6 +329,12 @@ func (x *Exec) frameCheck(final *State, ce *CEnv, c *Contract) {
 			excl = append(excl, Not(And(Le(IntLit(0), idx[0]), Lt(idx[0], x.alloc0))))
 		}
 		for _, l := range byFam[name] {
+			if l.appendFrom != nil {
+				if fi.arity > 0 {
+					excl = append(excl, Ge(idx[0], l.appendFrom))
+				}
+				continue
+			}
 			c := True()
 			for i := range l.idx {
 				c = And(c, Eq(idx[i], l.idx[i]))
@@ -358,7 +364,7 @@ func (x *Exec) configCover(st *State, c *Contract, fname string) {
 		}
 		// expand spec functions at the top level so that their conjuncts can be taken separately
 		if e.Op == "call" && e.Args[0].Op == "ident" {
-			if sf := x.P.spec(ce.pkg, e.Args[0].Name); sf != nil && len(sf.Params) == len(e.Args)-1 {
+			if sf := x.P.specIn(ce.home, ce.pkg, e.Args[0].Name); sf != nil && len(sf.Params) == len(e.Args)-1 {
 				sub := *ce
 				sub.vars = map[string]Val{}
 				for k, v := range ce.vars {
